@@ -231,7 +231,7 @@ impl Prop for NetFaults {
     }
 
     fn gen(&self, src: &mut Src) -> NetCase {
-        let timeout_ms = *src.pick(&[500u64, 2_000, 5_000]);
+        let timeout_ms = *src.pick(&[500u64, 2_000, 5_000, 500, 2_000, 0]);
         let n = 3 + src.below(23);
         let mut events = vec![];
         for _ in 0..n {
@@ -271,7 +271,7 @@ impl Prop for NetFaults {
         "datacake-rpc client and server over hyper/h2 over turmoil's simulated TCP (1 ms tick, 1-5 ms latency, seeded); \
          client script of 3-25 events: send 1-4 concurrent requests (payload / reply 0 B - 48 KiB, handler delay 0 - 6 s, \
          shared or fresh channel, client built directly or cloned once / twice from a configured one), partition, repair, hold, release, sleep 1 ms - 5.1 s, join; client timeout T in \
-         {0.5,2,5 s}; the script ends with release + repair + join; oracle: every request ends as Ok(reply with its own id, \
+         {0,0.5,2,5 s}; the script ends with release + repair + join; oracle: every request ends as Ok(reply with its own id, \
          the digest of its own payload and the requested length) or Err(ConnectionError|Timeout) within T + 10 ms of \
          simulated time; the handler log holds every id at most once and every id whose client saw Ok, with the digest of \
          the payload that was sent; no host panics; non-trivial = a fault event strictly between a send and its completion"
